@@ -62,6 +62,9 @@ CALLS = (
 )
 
 
+EXTRA_CALLS = [("selfstop", k) for k in ("K1", "K2", "K5")] + [("schedule_follow", h, k) for h in HANDLERS for k in ("K1", "K5")]
+
+
 def valid(seq):
     state = "new"
     for c in seq:
@@ -86,6 +89,12 @@ class Run:
         self.ref = apirig.RefModel()
         self.watches = {k: mk_watch(k) for k in KEYS}
         self.marker_n = 0
+        # a second observer of the same class lives next to the first one, with one fixed registration: nothing the first one
+        # is told may touch it, and nothing dispatched by either may reach the other's handlers
+        self.obs2 = BaseObserver(apirig.make_scripted_emitter(apirig.FaultPlan(()), []), timeout=0.05)
+        self.h_other = apirig.RecHandler("other")
+        self.w_other = self.obs2.schedule(self.h_other, "/p1", recursive=False)
+        self.obs2.start()
 
     def key_of(self, watch):
         for k, w in self.watches.items():
@@ -115,6 +124,18 @@ class Run:
                 obs.remove_handler_for_watch(self.h[call[1]], self.watches[call[2]])
             elif call[0] == "unschedule_all":
                 obs.unschedule_all()
+            elif call[0] == "selfstop":
+                # the emitter of that watch ends by itself (as after its root was deleted); nobody has unscheduled anything
+                for e in list(obs.emitters):
+                    if e.watch == self.watches[call[1]]:
+                        e.stop()
+                        if e.is_alive():
+                            e.join(5)
+            elif call[0] == "schedule_follow":
+                # the same path again, now asking for symbolic links to be followed: an equal watch (the flag is not part of
+                # what distinguishes watches) - one emitter, as for any other equal watch
+                p, r, f = key_args(call[2])
+                obs.schedule(self.h[call[1]], p, recursive=r, event_filter=f, follow_symlink=True)
             elif call[0] == "start":
                 obs.start()
             elif call[0] == "stop":
@@ -127,7 +148,16 @@ class Run:
         opp = self.plan.log[log0:]
         # ---- reference transition
         want_exc = None
-        if call[0] == "schedule":
+        dead = self.__dict__.setdefault("selfstopped", set())
+        if call[0] == "selfstop":
+            if call[1] in ref.emitters:
+                ref.emitters[call[1]] = False  # still registered, no longer alive (and never again: its stop flag is set)
+                dead.add(call[1])
+        if call[0] == "unschedule" and call[1] in ref.emitters:
+            dead.discard(call[1])
+        if call[0] in ("unschedule_all", "stop"):
+            dead.clear()
+        if call[0] in ("schedule", "schedule_follow"):
             _, h, k = call
             if k in ref.emitters:
                 ref.handlers.setdefault(k, set()).add(h)
@@ -164,11 +194,11 @@ class Run:
                     kk = self.key_of_watchkey(wkey)
                     if kk == failed_key:
                         break
-                    ref.emitters[kk] = True
+                    ref.emitters[kk] = kk not in dead
                 ref.emitters.pop(failed_key, None)
             else:
                 for k in ref.emitters:
-                    ref.emitters[k] = True
+                    ref.emitters[k] = k not in dead
                 ref.state = "running"
         elif call[0] == "stop":
             ref.handlers.clear()
@@ -197,10 +227,28 @@ class Run:
             errs.append(("emitters-vs-scheduled", f"observer.emitters watches {sorted(k or '?' for k in keys)} != reference {sorted(ref.emitters)}"))
         else:
             for e, k in zip(ems, keys):
+                if not ref.emitters[k] and e.is_alive():
+                    e.join(2)  # a thread whose stop flag was set before it was started ends at once, not instantly
                 alive = e.is_alive()
                 if alive != ref.emitters[k]:
                     # an emitter thread that was just started is alive; one just stopped has been joined by the API
                     errs.append(("emitter-liveness", f"emitter of {k}: is_alive()={alive}, reference {ref.emitters[k]}"))
+        # ---- the neighbour observer
+        from watchdog.events import FileModifiedEvent as _FME
+
+        b.count("neighbour_audits")
+        if [e.watch for e in self.obs2.emitters] != [self.w_other] or not all(e.is_alive() for e in self.obs2.emitters):
+            errs.append(("neighbour-observer-affected", f"the second observer's emitters are now {[e.watch for e in self.obs2.emitters]} (alive: {[e.is_alive() for e in self.obs2.emitters]})"))
+        else:
+            self.marker_n += 1
+            ev2 = _FME(f"/marker/other/{self.marker_n}")
+            n_before = len(self.h_other.calls)
+            self.obs2.event_queue.put((ev2, self.w_other))
+            if apirig.drain(self.obs2, 10):
+                got2 = sum(1 for _, e, _ in self.h_other.calls[n_before:] if e is ev2)
+                stray = [n for n, h in self.h.items() if any(e is ev2 for _, e, _ in h.calls)]
+                if got2 != 1 or stray:
+                    errs.append(("neighbour-observer-affected", f"an event of the second observer reached its own handler {got2} time(s) and handlers of the first one: {stray}"))
         if ref.state == "running" and obs.is_alive():
             from watchdog.events import FileModifiedEvent
 
@@ -220,6 +268,8 @@ class Run:
                 counts = {n: sum(1 for _, e, _ in h.calls if e is ev) for n, h in self.h.items()}
                 if got != want or any(c > 1 for c in counts.values()):
                     errs.append(("marker-receivers", f"marker for {k} reached {counts}, reference handler set {want}"))
+                if any(e is ev for _, e, _ in self.h_other.calls):
+                    errs.append(("neighbour-observer-affected", f"marker for {k} of the first observer reached the handler of the second observer"))
         return errs
 
     def cleanup(self):
@@ -234,6 +284,11 @@ class Run:
         for e in self.emitters_made:
             if e.is_alive():
                 e.stop()
+        try:
+            self.obs2.stop()
+            self.obs2.join(10)
+        except Exception:  # noqa: BLE001
+            pass
 
 
 def run_sequence(b: Batch, seq, fail_at=(), sample=False):
@@ -275,6 +330,8 @@ def rand_seq(r, n):
     for _ in range(n):
         for _ in range(20):
             c = r.choice(CALLS) if r.random() < 0.8 else r.choice([("start",), ("schedule", r.choice(HANDLERS), r.choice(KEYS))])
+            if r.random() < 0.12:
+                c = r.choice(EXTRA_CALLS)
             if c[0] == "start" and state != "new":
                 continue
             if c[0] == "stop" and r.random() < (0.5 if state == "stopped" else 0.6):
@@ -299,6 +356,12 @@ def stop_family():
             out.append([("start",), ("stop",), ("schedule", h, k), ("stop",), ("schedule", "h1", "K1")])
             out.append([("schedule", h, k), ("start",), ("stop",), ("stop",), ("add_handler", h, k), ("stop",)])
             out.append([("start",), ("schedule", h, k), ("stop",), ("schedule", h, k), ("add_handler", "h2", k), ("stop",), ("remove_handler", "h2", k)])
+    for k in ("K1", "K5"):
+        # an emitter that ended by itself (its root was deleted) and what happens to the watch afterwards
+        out.append([("start",), ("schedule", "h1", k), ("selfstop", k), ("schedule", "h2", k), ("unschedule", k), ("schedule", "h1", k)])
+        out.append([("schedule", "h1", k), ("add_handler", "h2", k), ("start",), ("selfstop", k), ("unschedule", k), ("stop",)])
+        out.append([("start",), ("schedule", "h1", k), ("schedule_follow", "h2", k), ("unschedule", k), ("schedule_follow", "h1", k), ("schedule", "h2", k), ("unschedule_all",)])
+        out.append([("schedule_follow", "h1", k), ("schedule", "h2", k), ("start",), ("unschedule", k)])
     return out
 
 
